@@ -47,6 +47,8 @@ if sys.argv[1] == "stop":
     for tick in range(3):
         st.run()
         states.append(st.next_state)
+        if st.next_state != "Open":
+            break          # the machine leaves the Open state object here
     dprs = sum(s.count(a.base.dpr.dump()[4:12]) for s in a.transport.streams if s)
     print("next_state after each tick:", states, " DPRs written:", dprs)
     sys.exit(1 if dprs != 1 or states[0] != "Closing" else 0)
